@@ -662,7 +662,7 @@ def _l5(ctx, R, CM):
           "through by that class's _clone, a redirect-through-memo (or cut, as documented for that entry) of that field is applied to the "
           "objects of that site (receiver/loop/call-site resolution of which objects each fixing write covers); L3b reference sets of "
           "cloned definitions are pruned by membership in memo.values(); L4 copies are built through the extended classes of spydrnet.ir; "
-          "L5 _clone never writes the source and the only writes leaving the clone are reference-set insertions. Decides closure and "
+          "L5 _clone never writes the source, the only writes leaving the clone are reference-set insertions, and every write of a clone-family method lands on a kind of object its class owns (kind inference of the receiver: the inner pins that key an instance's pin map belong to the definition); L7 no list / set / dict slot of the copy is the source's own container. Decides closure and "
           "independence structurally; does not decide structural identity of names/order, nor query equivalence.",
           ["REQUIRED (per clone entry: remap / reset / keep for each copied-through field) is the reviewed transcription of the clone "
            "documentation"])
